@@ -167,6 +167,55 @@ func runC14(r *Run) {
 		}
 	}
 	r.Floor("R2", "redirect edges", nRedirect, 3)
+	// the community pool is updated only by the SDK's DecCoins.Add(old pool, coins made from amounts):
+	// every store into FeePool.CommunityPool (or an element of it) must be the result of such a call
+	nPoolStores := 0
+	eachInstr(fn, func(in ssa.Instruction) {
+		st, ok := in.(*ssa.Store)
+		if !ok {
+			return
+		}
+		touches := false
+		for a := st.Addr; a != nil; {
+			if sn, f, ok := fieldOfAddr(a); ok && sn == "FeePool" && f == "CommunityPool" {
+				touches = true
+				break
+			}
+			switch x := a.(type) {
+			case *ssa.FieldAddr:
+				a = x.X
+			case *ssa.IndexAddr:
+				a = x.X
+			case *ssa.UnOp:
+				a = x.X
+			default:
+				a = nil
+			}
+		}
+		if !touches {
+			return
+		}
+		nPoolStores++
+		okAdd := false
+		if c, ok := st.Val.(*ssa.Call); ok {
+			ci := callInfo(c)
+			if ci.Name == "Add" && ci.Recv == "DecCoins" {
+				args := callArgs(c)
+				recvDep := backSlice(args[0]).HasField("FeePool", "CommunityPool")
+				argDep := false
+				if len(args) > 1 {
+					sl := backSlice(args[1])
+					argDep = sl.HasParam("amounts") && sl.HasCall(func(g CallInfo) bool { return g.Name == "NewDecCoinsFromCoins" || g.Name == "NewDecCoinFromCoin" })
+				}
+				_, direct := st.Addr.(*ssa.FieldAddr)
+				okAdd = recvDep && argDep && direct
+			}
+		}
+		r.Check(okAdd, "R2", fmt.Sprintf("%s#redirect-branch/pool-add-%d", fnID(fn), nPoolStores), P.Pos(instrPos(in)),
+			"CommunityPool = CommunityPool.Add(NewDecCoinsFromCoins(amounts))",
+			"the community pool is written with something other than DecCoins.Add(<stored pool>, <dec coins of amounts>): part of the redirected burn may not be credited to the pool")
+	})
+	r.Floor("R2", "stores into FeePool.CommunityPool", nPoolStores, 1)
 	if w := (PathQuery{Fn: fn, Block: isEmbedded, Target: isSuccessExit, DelEdge: edgeSet(eqEdges)}).Search(); w != nil {
 		r.Bad("R2", fnID(fn)+"#other-modules-burn", where, "for a module outside the redirected set a success exit is reachable without the embedded BurnCoins(moduleName, amounts)", P.witness(w)...)
 	} else {
